@@ -22,6 +22,7 @@ type Clause struct {
 	Line int      // line in contract file
 	Ord  int      // ordinal among clauses of this kind in the block (1-based)
 	Name string   // optional label: ensures[C10] "label": expr   (label used in obligation names)
+	Lo, Hi int    // for cases clauses
 }
 
 type LoopContract struct {
@@ -56,8 +57,8 @@ type FuncContract struct {
 	File     string
 }
 
-var kwRe = regexp.MustCompile(`^(func|requires|ensures|invariant|decreases|modifies|loop|law|lemma|unroll|inline|trusted|pure|havoc|split|uninterpreted)\b`)
-var tagRe = regexp.MustCompile(`^\[([A-Za-z0-9_, ]+)\]`)
+var kwRe = regexp.MustCompile(`^(func|requires|ensures|invariant|decreases|modifies|loop|law|lemma|unroll|inline|trusted|pure|havoc|split|cases|uninterpreted)\b`)
+var tagRe = regexp.MustCompile(`^\[([A-Za-z0-9_, *]+)\]`)
 var labelRe = regexp.MustCompile(`^"([^"]*)"\s*:`)
 
 func parseContracts(file string, src []byte) ([]*FuncContract, error) {
@@ -138,6 +139,26 @@ func parseContracts(file string, src []byte) ([]*FuncContract, error) {
 				cur.Lemmas = append(cur.Lemmas, cl)
 			}
 		case "split":
+			if curLoop != nil {
+				cl.Ord = len(curLoop.Splits) + 1
+				curLoop.Splits = append(curLoop.Splits, cl)
+			} else {
+				cl.Ord = len(cur.Splits) + 1
+				cur.Splits = append(cur.Splits, cl)
+			}
+		case "cases":
+			// cases <expr> <lo> <hi>: one case per value lo..hi of expr, plus one for "none of them"
+			f := strings.Fields(rest)
+			if len(f) < 3 {
+				return nil, fmt.Errorf("%s:%d: cases <expr> <lo> <hi>", file, ln+1)
+			}
+			lo, err1 := strconv.Atoi(f[len(f)-2])
+			hi, err2 := strconv.Atoi(f[len(f)-1])
+			if err1 != nil || err2 != nil || hi < lo || hi-lo > 40 {
+				return nil, fmt.Errorf("%s:%d: bad cases range", file, ln+1)
+			}
+			cl.Text = strings.Join(f[:len(f)-2], " ")
+			cl.Lo, cl.Hi = lo, hi
 			if curLoop != nil {
 				cl.Ord = len(curLoop.Splits) + 1
 				curLoop.Splits = append(curLoop.Splits, cl)
